@@ -134,6 +134,7 @@ PURE_EXTERNAL = {
     "copy.copy": lambda x: x.copy() if hasattr(x, "copy") else x,
     "unicodedata.category": unicodedata.category,
     "json.loads": lambda s_, *a, **k: __import__("json").loads(s_),
+    "json.dumps": lambda o, *a, **k: __import__("json").dumps(o, sort_keys=bool(k.get("sort_keys")), indent=k.get("indent"), default=(str if k.get("default") is not None else None)),
     "itertools.chain": lambda *its: __import__("itertools").chain(*its),
     "itertools.chain.from_iterable": lambda it: __import__("itertools").chain.from_iterable(it),
     "itertools.islice": lambda *a: __import__("itertools").islice(*a),
@@ -149,6 +150,9 @@ PURE_EXTERNAL = {
     "fnmatch.translate": lambda pat: __import__("fnmatch").translate(pat),
     "re.escape": re.escape,
     "collections.ChainMap": ChainMap,
+    "weakref.WeakKeyDictionary": lambda *a, **k: dict(*a, **k), "weakref.WeakValueDictionary": lambda *a, **k: dict(*a, **k), "weakref.WeakSet": lambda *a: set(*a),
+    "textwrap.dedent": lambda t: __import__("textwrap").dedent(t), "textwrap.indent": lambda t, p_, *a: __import__("textwrap").indent(t, p_),
+    "inspect.cleandoc": lambda t: __import__("inspect").cleandoc(t),
     "os.path.isabs": os.path.isabs,
     "os.path.normpath": lambda p: tok("norm:" + p) if "⟦" in p else os.path.normpath(p),
     "os.path.abspath": lambda p: tok("abs:" + p) if "⟦" in p or not os.path.isabs(p) else os.path.normpath(p),
@@ -243,10 +247,39 @@ class PureInterp:
         self._is_gen = {}
 
     # ------------------------------------------------------------------ functions
-    def call(self, finfo, args=(), kwargs=None, self_obj=None, depth=0, closure=None):
+    def _repo_decorated(self, finfo, depth):
+        """The value a def statement binds when (some of) its decorators are plain functions of the repository (e.g. a home-made caching
+        decorator): the decorators applied, innermost first, to the raw function.  None when there is no such decorator.  Built once per
+        function and interpreter, like the def statement itself runs once."""
+        cache = self.__dict__.setdefault("_decorated", {})
+        key = id(finfo.node)
+        if key in cache:
+            return cache[key]
+        cache[key] = None
+        val = None
+        for d in reversed(getattr(finfo.node, "decorator_list", [])):
+            dc = d.func if isinstance(d, ast.Call) else d
+            canon = self.index.canon(dc, finfo.module) if isinstance(dc, (ast.Name, ast.Attribute)) else None
+            target = self.index.lookup(canon) if canon else None
+            if not isinstance(target, FuncInfo):
+                continue
+            deco = target
+            if isinstance(d, ast.Call):   # decorator factory
+                deco = self.apply(target, [self.eval(a, {}, finfo.module, depth) for a in d.args],
+                                  {k.arg: self.eval(k.value, {}, finfo.module, depth) for k in d.keywords if k.arg}, depth)
+            val = self.apply(deco, [val if val is not None else ("rawfunc", finfo)], {}, depth)
+        cache[key] = val
+        return val
+
+    def call(self, finfo, args=(), kwargs=None, self_obj=None, depth=0, closure=None, _raw=False):
         if depth > max(self.max_depth, 40 if closure is not None else 0):
             raise Unsupported("recursion depth")
         kwargs = dict(kwargs or {})
+        if not _raw and closure is None and getattr(finfo.node, "decorator_list", None):
+            wrapped = self._repo_decorated(finfo, depth)
+            if wrapped is not None:
+                is_method = finfo.cls is not None and "staticmethod" not in finfo.decorator_names()
+                return self.apply(wrapped, ([self_obj] if is_method else []) + list(args), kwargs, depth)
         a = finfo.node.args
         names = [x.arg for x in a.posonlyargs + a.args]
         env = dict(closure) if closure else {}
@@ -1054,6 +1087,11 @@ class PureInterp:
             return self.call(f, args, kwargs, depth=depth + 1)
         if isinstance(f, tuple) and f and f[0] == "bound":
             return self.call(f[1], args, kwargs, self_obj=f[2], depth=depth + 1)
+        if isinstance(f, tuple) and f and f[0] == "rawfunc":   # the undecorated function, as handed to its decorator
+            fi = f[1]
+            if fi.cls is not None and "staticmethod" not in fi.decorator_names() and args:
+                return self.call(fi, args[1:], kwargs, self_obj=args[0], depth=depth + 1, _raw=True)
+            return self.call(fi, args, kwargs, depth=depth + 1, _raw=True)
         if isinstance(f, tuple) and f and f[0] == "hookattr":
             return self.hooks["attr:" + f[1]](f[2], *args, **kwargs)
         if isinstance(f, tuple) and f and f[0] == "closure":
